@@ -369,7 +369,77 @@ def oracle_empty():
     return None
 
 
+def selection_direct(ctx):
+    """the four selection functions of constraint_generators.py on single constraints with boundary sign patterns, against the functions
+    regenerated from the source (Gen/GenConGen.v, evaluated inside Coq) and against what the property requires of a selection"""
+    from sageopt.relaxations import constraint_generators as cg
+    from sageopt.symbolic.signomials import Signomial
+    from sageopt.symbolic.polynomials import Polynomial
+    pats = [[1, -1], [1, 1], [-1, -1], [2, -1, -1], [1, 1, -1], [1, -1, 0], [0, 0], [3], [-2], [1, -2, -3, -1], [1, 0, 0], [-1, 0, 2], [0, -1]]
+    cases, fails = [], []
+    code = {'keep': 0, 'skip': 1, 'raise': 2, 'index': 3}
+
+    def outcome(fn, g):
+        try:
+            with warnings.catch_warnings():
+                warnings.simplefilter('ignore')
+                r = fn([g])
+            return 'keep' if len(r) == 1 else 'skip'
+        except RuntimeError:
+            return 'raise'
+        except IndexError:
+            return 'index'
+    for pat in pats:
+        m = len(pat)
+        c = np.array([float(v) for v in pat])
+        cq_c = [Fraction(v) for v in pat]
+        # signomial with distinct exponent rows, the first one the constant
+        alpha = np.array([[float(i), float((i * i) % 3)] for i in range(m)])
+        g = Signomial(alpha, c)
+        if g.m == m:      # the constructor kept every term (zeros included)
+            o = outcome(cg.valid_posynomial_inequalities, g)
+            cases.append((cq((Nat(0), (True, True), cq_c)), cq(Nat(code[o]))))
+            npos = sum(1 for v in pat if v > 0)
+            if (o == 'keep') != (npos == 1):
+                fails.append('valid_posynomial_inequalities on coefficients %s: %s (a posynomial inequality can be normalised iff exactly one coefficient is positive)' % (pat, o))
+            o = outcome(cg.valid_monomial_equations, g)
+            cases.append((cq((Nat(1), (True, True), cq_c)), cq(Nat(code[o]))))
+            if (o == 'keep') != (npos == 1 and sum(1 for v in pat if v != 0) <= 2):
+                fails.append('valid_monomial_equations on coefficients %s: %s' % (pat, o))
+        for even in (True, False):
+            ea = np.array([[2 * i if even else (2 * i + (1 if i == 1 else 0)), 0] for i in range(m)])
+            p = Polynomial(ea, c)
+            if p.m != m:
+                continue
+            even = bool(np.all(ea % 2 == 0))      # what the exponents are, whatever was asked for (a single constant term is even)
+            z0 = bool(p(np.zeros(2)) == 0)
+            o = outcome(cg.valid_gp_representable_poly_inequalities, p)
+            cases.append((cq((Nat(2), (even, z0), cq_c)), cq(Nat(code[o]))))
+            npos = sum(1 for v in pat if v > 0)
+            if (o == 'keep') != (even and npos == 1):
+                fails.append('valid_gp_representable_poly_inequalities on coefficients %s (even exponents: %s): %s' % (pat, even, o))
+            o = outcome(cg.valid_gp_representable_poly_eqs, p)
+            cases.append((cq((Nat(3), (even, z0), cq_c)), cq(Nat(code[o]))))
+            if (o == 'keep') != (even and npos == 1 and sum(1 for v in pat if v != 0) == 2):
+                fails.append('valid_gp_representable_poly_eqs on coefficients %s (even exponents: %s): %s' % (pat, even, o))
+    hdr = ('From Coq Require Import List Bool Arith QArith.\nFrom SageVerif Require Import Gen.GenConGen Base.Corr.\nImport ListNotations.\n'
+           'Definition sc (s : sel) : nat := match s with SelKeep => 0 | SelSkip => 1 | SelRaise => 2 | SelIndexError => 3 end.\n'
+           "Definition model (x : nat * (bool * bool) * list Q) : nat := let '(k, ez, c) := x in\n"
+           '  sc (match k with 0%nat => gen_posy_sel c | 1%nat => gen_monoeq_sel c | 2%nat => gen_polyineq_sel (fst ez) (snd ez) c | _ => gen_polyeq_sel (fst ez) c end).')
+    mism, err = vlib.run_suite_in_coq(ctx.pid, 'selection_direct', hdr, 'model', 'Nat.eqb', 'nat * (bool * bool) * list Q', 'nat', cases, shard=400)
+    ctx.evaluations += len(cases)
+    ctx.suites['selection_direct'] = {'cases': len(cases), 'mismatches': None if mism is None else len(mism), 'oracle_failure': fails[:1]}
+    if err:
+        ctx.problem('correspondence', 'suite selection_direct: ' + err)
+    elif mism:
+        ctx.problem('correspondence', 'suite selection_direct: the selection generated from the source and the implementation disagree on %s (impl %s)'
+                    % (cases[mism[0]][0], cases[mism[0]][1]), inputs={'selection_case': cases[mism[0]][0]}, failing_input_found=False)
+    if fails:
+        ctx.problem('oracle', 'property fails on the implementation: ' + fails[0], inputs={'selection_case': fails[0]}, failing_input_found=True)
+
+
 def run(ctx):
+    selection_direct(ctx)
     from sageopt.relaxations import constraint_generators as cg
     import sageopt.coniclifts as cl
     cases = []
